@@ -199,7 +199,7 @@ LEVEL_TEXT = (
     "EventHandler state machine issues exactly the calls of a recursive writer (L1), XMLGenerator turns them into a "
     "namespace-well-formed document whose infoset is the tree of those calls (L2: generate_prefix never rebinds a key — proved for every map incl. loop termination —, default-"
     "namespace reset, uri→prefix context vs scope invariants), which is the tree an independent reader assigns to the "
-    "events (L3); counterexample theorems for each excluded region; model tied to /repo by a differential check of the "
+    "events (L3); counterexample theorems for each excluded region (and positive witnesses for the repaired ones); model tied to /repo by a differential check of the "
     "native writer's exact text, the SAX call sequence, the lxml writer's infoset, the metadata reading and the namespace helpers."
 )
 LEVEL_NOTE = (
